@@ -270,14 +270,15 @@ func (c *Ctx) c04Chunk(gs []*gast.Grammar, flagSets [][]string, rng *rand.Rand, 
 		c.Distinct(u.Pkg + u.FlagID + gast.Short(u.G))
 		// "package initialisation does not panic", for a user package that parses while its variables are
 		// initialised: the call made then returns what the same call returns afterwards
-		if ip := res[u.Pkg+"/init"]; ip != nil && ip.Init != nil {
+		if at := res[u.Pkg+"/init"]; at != nil && at.Init != nil {
+			after := at.Init
 			c.CovAdd("init_time_parses_compared", 1)
-			if ip.Init.ErrNil {
+			if at.ErrNil {
 				c.CovAdd("init_time_parses_matching", 1)
 			}
-			if ip.Init.Val != ip.Val || ip.Init.ErrStr != ip.ErrStr || ip.Init.Panic != ip.Panic {
+			if at.Val != after.Val || at.ErrStr != after.ErrStr || at.Panic != after.Panic {
 				c.Report(&Violation{Class: "C04/init-time-parse", Summary: fmt.Sprintf("Parse called from a package-level variable initialiser returns %s / %q / panic %q, the same call after initialisation %s / %q / %q; flags [%s] grammar %q input %q",
-					trunc(ip.Init.Val), trunc(ip.Init.ErrStr), trunc(ip.Init.Panic), trunc(ip.Val), trunc(ip.ErrStr), trunc(ip.Panic), u.FlagID, gast.Short(u.G), u.InitInput()), Grammar: u.Text, Flags: u.Flags, Input: u.InitInput()})
+					trunc(at.Val), trunc(at.ErrStr), trunc(at.Panic), trunc(after.Val), trunc(after.ErrStr), trunc(after.Panic), u.FlagID, gast.Short(u.G), u.InitInput()), Grammar: u.Text, Flags: u.Flags, Input: u.InitInput()})
 			}
 		}
 		if u.GIdx == 0 && len(u.Flags) >= 4 {
